@@ -113,7 +113,11 @@ def block_texts(rnd, n, minblocks, maxblocks):
 def observe(text, layout, seed, cond_expr):
     rnd = random.Random(seed)
     s = D.render_lines(text, rnd, layout, cond_expr)
-    r = D.parse_dip(s)
+    # every second rendering in per-parent widths is handed over in several add_string calls
+    pieces = D.split_pieces(s, rnd) if layout == 4 and seed % 2 == 0 else None
+    r = D.parse_dip(s, pieces=pieces)
+    if pieces:
+        s = "\n--- next add_string ---\n".join(pieces)
     if r[0] == "ok":
         try:
             return {"ok": True, "nodes": D.observe_nodes(r[1])}, s
